@@ -15,6 +15,6 @@ def queries(tier):
         q2 = copy.copy(q); q2.name = 'pure/' + q.name[len('render/'):]
         qs.append(q2)
     if tier == 'quick':
-        keep = ('var_raw', 'loop_array', 'loop_set', 'index_path', 'if_else', 'math', 'inline_if', 'svar', 'loop_key', 'loop_if')
+        keep = ('var_raw', 'loop_array', 'loop_set', 'index_path', 'if_else', 'math', 'inline_if', 'svar', 'loop_key', 'loop_if', 'loop_sort', 'loop_elseif')
         qs = [q for q in qs if q.name.split('/')[1] in keep]
     return qs
